@@ -398,7 +398,7 @@ class DateTime64(DataType, dtypes.Timestamp):
 
 @Engine.register_dtype(
     equivalents=[
-        datetime.datetime,
+        datetime.timedelta,
         np.timedelta64,
         dtypes.Timedelta,
         dtypes.Timedelta(),
